@@ -259,6 +259,12 @@ New(bc, n, cp, kp, cn, fp, v, cx, nr) ==
 
 \* from_product_state(sites, p_state, bc, dtype, permute=True, form): p_state entries are basis indices,
 \* state labels or (without charges) local wave functions; the state is their tensor product
+\* kind of the p_state entry of site i (1-based): uniform, or labels / ints / one-hot arrays mixed in every order
+HowAt(how, i) == CASE how = "mixA" -> <<"label", "int", "array1">>[((i - 1) % 3) + 1]
+                   [] how = "mixB" -> <<"int", "label", "array1", "label">>[((i - 1) % 4) + 1]
+                   [] how = "mixC" -> <<"array1", "label", "int", "int">>[((i - 1) % 4) + 1]
+                   [] OTHER -> how
+HowNum(how) == CASE how = "array" -> 1 [] how = "label" -> 2 [] how = "int" -> 3 [] how = "mixA" -> 4 [] how = "mixB" -> 5 [] OTHER -> 6
 LocalVec(kind, how, v, pos) ==
     LET d == Dim(kind) IN
     IF how = "array" THEN [s \in 1..d |-> LET z == Entry(pos, s, 1, 2, v, TRUE) IN IF s = ((pos + v) % d) + 1 /\ GIsZero(z) THEN GOne ELSE z]
@@ -272,17 +278,18 @@ ProductRep(bc, kinds, cons, f, vecs) ==
 Product(bc, n, kp, cn, f, v, how) ==
     /\ phase = "init" /\ "product" \in Ctors
     /\ phase' = "live" /\ nops' = 0
-    /\ Keep(CaseNo(BcNum(bc), n, 0, kp, cn, 0, v, IF how = "array" THEN 1 ELSE IF how = "label" THEN 2 ELSE 3))
+    /\ Keep(CaseNo(BcNum(bc), n, 0, kp, cn, 0, v, HowNum(how)))
     /\ (cn # 0 => (Homogeneous(kp) /\ how # "array"))
     /\ LET kinds == KindPat(kp, n)
-           vecs == [i \in 1..n |-> LocalVec(kinds[i], how, v, i)]
+           hows == [i \in 1..n |-> HowAt(how, i)]
+           vecs == [i \in 1..n |-> LocalVec(kinds[i], hows[i], v, i)]
            R0 == ProductRep(bc, kinds, ConsOf(cn), f, vecs)
            P == Contract(R0)
        IN /\ SizeOK(R0) /\ ~TIsZero(P)
           /\ R' = R0 /\ psi' = P /\ nrm' = 1 /\ mode' = "raw"
           /\ last' = [op |-> "from_product_state", c |-> <<bc, n, kp, cn, f, v, how>>]
           /\ Rec([op |-> "from_product_state", bc |-> bc, kinds |-> kinds, cons |-> ConsOf(cn), form |-> f,
-                  how |-> how, vecs |-> vecs])
+                  how |-> how, hows |-> hows, vecs |-> vecs])
 
 \* from_lat_product_state(lat, p_state): Chain (1 site per cell) or Ladder (2 sites per cell, MPS index 2x+u);
 \* p_state is lattice indexed and tiled periodically over the lattice
@@ -341,23 +348,56 @@ CoverMaps(n, mp) ==
     CASE n = 3 -> (IF mp = 1 THEN <<<<0, 1>>, <<2>>>> ELSE <<<<0, 2>>, <<1>>>>)
       [] n = 4 -> (CASE mp = 1 -> <<<<0, 1>>, <<2, 3>>>> [] mp = 2 -> <<<<0, 2>>, <<1, 3>>>> [] mp = 3 -> <<<<0, 3>>, <<1, 2>>>>
                      [] OTHER -> <<<<1, 2, 0>>, <<3>>>>)      \* local site 0 -> site 1, 1 -> 2, 2 -> 0: needs permute_sites
+      [] n = 6 -> <<<<0, 3>>, <<1, 4>>, <<2, 5>>>>                 \* three local states cross the middle bond
+      [] n = 8 -> <<<<0, 4>>, <<1, 5>>, <<2, 6>>, <<3, 7>>>>      \* four local states cross the middle bond
       [] OTHER -> <<<<0, 1>>>>
+\* the bond values the constructor has to store on bond b (left of site b), each with the charge of its index:
+\* all combinations <<sum of charges, sum of exponents>> of the local bonds that cross b (as a sequence; order free)
+RECURSIVE CrossAll(_)
+CrossAll(lists) ==
+    IF lists = <<>> THEN << <<0, 0>> >>
+    ELSE LET rest == CrossAll(Tail(lists))
+             h == Head(lists)
+         IN [x \in 1..(Len(h) * Len(rest)) |->
+               LET a == h[((x - 1) \div Len(rest)) + 1]
+                   c == rest[((x - 1) % Len(rest)) + 1]
+               IN <<a[1] + c[1], a[2] + c[2]>>]
+CoverBag(lreps, imap, cons, b) ==
+    LET RECURSIVE Coll(_)
+        Coll(q) == IF q = 0 THEN <<>>
+                   ELSE LET m == imap[q]
+                            lbs == {lb \in 1..(Len(m) - 1) : m[lb] < b /\ b <= m[lb + 1]}
+                        IN IF lbs = {} THEN Coll(q - 1)
+                           ELSE LET lb == CHOOSE x \in lbs : TRUE IN
+                                Append(Coll(q - 1), [k \in 1..Len(lreps[q].S[lb + 1]) |-> <<lreps[q].qb[lb + 1][k], lreps[q].S[lb + 1][k]>>])
+        all == CrossAll(Coll(Len(imap)))
+    IN [x \in 1..Len(all) |-> <<QNorm(all[x][1], cons), all[x][2]>>]
 Sorted(m) == \A k \in 1..(Len(m) - 1) : m[k] < m[k + 1]
-Covering(n, mp, kp, v, cx) ==
-    /\ phase = "init" /\ "covering" \in Ctors /\ n <= MaxL /\ n >= 2
+Covering(n, mp, kp, cn, v, cx) ==
+    /\ phase = "init" /\ "covering" \in Ctors /\ (n <= MaxL \/ (n \in {6, 8} /\ MaxL >= 4)) /\ n >= 2
     /\ phase' = "live" /\ nops' = 0
     /\ LET imap == CoverMaps(n, mp)
            kinds == KindPat(kp, n)
-           lrep(q) == MkRep("finite", Len(imap[q]), 1, kp, "none", 3, v + q, cx = 1)
+           cons == ConsOf(cn)
+           \* local states: the first pattern variant that is non-zero, small, and (with a bond) has a non-degenerate
+           \* spectrum of bond values -- so that a bond value on the wrong index / charge block is visible
+           cand(q, w) == MkRep("finite", Len(imap[q]), 1 + ((q + v) % 2), kp, cons, 3, v + q + 2 * w, cx = 1)
+           okc(q, w) == LET r == cand(q, w) c == Contract(r) IN
+                        /\ ~TIsZero(c) /\ AbsLE(c, 40)
+                        /\ (Len(imap[q]) >= 2 => \E k1, k2 \in 1..Len(r.S[2]) : r.S[2][k1] # r.S[2][k2])
+           Ws == 0..7
+           lrep(q) == cand(q, CHOOSE w \in Ws : okc(q, w) /\ \A w2 \in Ws : w2 < w => ~okc(q, w2))
            lreps == [q \in 1..Len(imap) |-> lrep(q)]
            locals == [q \in 1..Len(imap) |-> Contract(lreps[q])]
            P == CoverPsi(n, [i \in 1..n |-> Dim(kinds[i])], locals, imap)
        IN /\ Homogeneous(kp)
-          /\ ~TIsZero(P) /\ AbsLE(P, 400)
+          /\ \A q \in 1..Len(imap) : \E w \in Ws : okc(q, w)
+          /\ ~TIsZero(P) /\ AbsLE(P, 100000000)
           /\ R' = NoRep /\ psi' = P /\ nrm' = 1
           /\ mode' = IF \A q \in 1..Len(imap) : Sorted(imap[q]) THEN "raw" ELSE "loose"   \* unsorted: permute_sites (SVD)
-          /\ last' = [op |-> "from_product_mps_covering", c |-> <<n, mp, kp, v, cx>>]
-          /\ Rec([op |-> "from_product_mps_covering", n |-> n, imap |-> imap, locals |-> lreps])
+          /\ last' = [op |-> "from_product_mps_covering", c |-> <<n, mp, kp, cn, v, cx>>]
+          /\ Rec([op |-> "from_product_mps_covering", n |-> n, imap |-> imap, locals |-> lreps, cons |-> cons,
+                  Sbag |-> [b \in 1..(n - 1) |-> CoverBag(lreps, imap, cons, b)]])
 
 \* from_full(sites, psi, form, cutoff, normalize, bc, outer_S) and from_Bflat(sites, Bflat, SVs, bc, form):
 \* routes through SVD / canonical_form -- relation: the result is proportional to the input, its tensors are
@@ -458,12 +498,14 @@ Canonical(renorm) ==
 DoNew == phase = "init" /\ \E bc \in BCs, n \in 1..MaxL, cp \in 1..2, kp \in 1..5, cn \in 0..2, fp \in 1..6, v \in 0..1, cx \in 0..1, nr \in {1, 3} :
             /\ (bc # "infinite" => n >= 2) /\ (nr = 3 => (fp + v) % 3 = 0)
             /\ New(bc, n, cp, kp, cn, fp, v, cx, nr)
-DoProduct == phase = "init" /\ \E bc \in BCs, n \in 1..MaxL, kp \in 1..5, cn \in 0..2, f \in Forms \ {"Th"}, v \in 0..1, how \in {"int", "label", "array"} :
+DoProduct == phase = "init" /\ \E bc \in BCs, n \in 1..MaxL, kp \in 1..5, cn \in 0..2, f \in Forms \ {"Th"}, v \in 0..1, how \in {"int", "label", "array", "mixA", "mixB", "mixC"} :
             /\ (bc # "infinite" => n >= 2) /\ Product(bc, n, kp, cn, f, v, how)
 DoLatProduct == phase = "init" /\ \E bc \in BCs \ {"segment"}, nx \in 1..MaxL, nu \in 1..2, tile \in 1..2, kp \in {1, 3, 5}, v \in 0..1 :
             /\ nx * nu >= 2 /\ (CaseNo(BcNum(bc), nx, nu, kp, 0, tile, v, 4) + Seed) % 13 = 0 /\ LatProduct(bc, nx, nu, tile, kp, v)
 DoSinglets == phase = "init" /\ \E n \in 2..MaxL, pp \in 1..3, ls \in 0..1 : (pp = 3 => n = 4) /\ Singlets(n, pp, ls)
-DoCovering == phase = "init" /\ \E n \in 2..MaxL, mp \in 1..4, kp \in {1, 4}, v \in 0..1, cx \in 0..1 : (mp >= 3 => n = 4) /\ Covering(n, mp, kp, v, cx)
+DoCovering == phase = "init" /\ \E n \in (2..MaxL) \cup {6, 8}, mp \in 1..4, kp \in {1, 4}, cn \in 0..2, v \in 0..1, cx \in 0..1 :
+                 /\ (mp >= 3 => n = 4) /\ (n \in {6, 8} => (mp = 1 /\ kp = 1)) /\ (cn # 0 => (mp = 1 /\ (v + cx + n) % 2 = 0))
+                 /\ Covering(n, mp, kp, cn, v, cx)
 DoFromFull == phase = "init" /\ \E bc \in BCs, n \in 2..MaxL, cp \in 1..2, kp \in 1..5, cn \in 0..2, v \in 0..1, cx \in 0..1,
                  f \in {"none", "A", "B", "C", "G"}, nz \in BOOLEAN : FromFull(bc, n, cp, kp, cn, v, cx, f, nz)
 DoFromBflat == phase = "init" /\ \E bc \in BCs, n \in 2..MaxL, cp \in 1..2, kp \in 1..5, cn \in 0..2, fp \in 1..6, v \in 0..1, cx \in 0..1 :
